@@ -3,7 +3,7 @@ use attosim::NS_PER_MS;
 
 use crate::bodyx::{self, BodyPlan, Observed, ReadMode};
 use crate::gen::{self, G};
-use crate::httpref::{ref_decode, Framing, RefEnd};
+use crate::httpref::{is_prefix, ref_decode, Framing, RefEnd};
 use crate::peers::{End, Script};
 use crate::runner::{violation, RunCtx, RunReport, Stats, Verdict};
 
@@ -15,7 +15,12 @@ pub fn scenario(g: &mut G, ctx: &RunCtx) -> RunReport {
     // the streaming text reader (only drawn for ASCII payloads, where no character is ever incomplete)
     // is one more way to read the body: it must hand out what has arrived, too
     plan.read_timeout_ms = 3_600_000;
-    if !matches!(plan.read_mode, ReadMode::Sizes(..)) {
+    if g.chance(1, 6) {
+        // the copy helper: what has arrived must have reached the caller's writer, too
+        plan.read_mode = ReadMode::WriteTo;
+        plan.via_text_reader = false;
+        g.probe("write_to-helper");
+    } else if !matches!(plan.read_mode, ReadMode::Sizes(..)) {
         let (v, n) = gen::read_sizes(g);
         plan.read_mode = ReadMode::Sizes(v, n);
     }
@@ -112,6 +117,22 @@ fn oracle(plan: &BodyPlan, o: &Observed, h: &attosim::History, k: usize) -> Verd
         }
         cur
     };
+    if plan.read_mode == ReadMode::WriteTo {
+        // by the instant of every delivery step the writer has received all that is deliverable
+        for (t, d, _) in &table {
+            let written: usize = o.sink_writes.iter().filter(|(tw, _)| tw <= t).map(|(_, n)| *n).sum();
+            if written < *d {
+                return violation(
+                    "write_to-held-back-delivered-data",
+                    format!("at t={} {} payload bytes were deliverable but the caller's writer had received only {} (writes so far: {})", t, d, written, o.sink_writes.len()),
+                );
+            }
+        }
+        if !is_prefix(&o.output, &plan.payload) {
+            return violation("write_to-wrote-wrong-bytes", "the bytes written are not a prefix of the payload".to_string());
+        }
+        return Verdict::Pass;
+    }
     for (i, c) in o.calls.iter().enumerate() {
         if c.size == 0 {
             continue;
